@@ -209,6 +209,8 @@ def check(ctx: Ctx) -> None:
     auto_memo_check(ctx, 'C04.c', [MI])
     from .c20 import check_gmd_bookkeeping
     check_gmd_bookkeeping(ctx, 'C04.g')
+    from .c20 import check_gmd_threshold
+    check_gmd_threshold(ctx, 'C04.h', [MI])
     if deferred is not None:
         raise deferred
     if cannot_tell:
